@@ -31,10 +31,10 @@ CHECKS = {
    level_text="Seeded exploration (9.6k quick / 160k thorough histories) in which every non-mutating call is bracketed by a strict fingerprint (node identities, parent/arg_key/index, scalars, comments, types, meta) and the base-dialect SQL of each argument tree, including when the call fails with UnsupportedError/OptimizeError/ParseError or with a RecursionError injected at a PRNG-chosen stack depth; copies must be equal, structurally identical and node-disjoint, and later edits of either side must leave the other's fingerprint unchanged (frame condition). Evidence, not proof.",
    design_ref="DESIGN.md 3.5", note="Trusts CPython and the harness; trees come from the corpus (fixtures + ~12k dialect statements + built-ins), not from an exhaustive grammar; cache state alone is not part of the C09 fingerprint (stale caches are C08's I3)."),
  "C15": dict(engine="histsim", technique="deterministic simulation of process lifetimes: fork-server templates per PYTHONHASHSEED (ASLR off), generated call histories over fresh and reused Tokenizer/Parser/Generator/Dialect/MappingSchema instances from a cold interpreter, with failing earlier steps, injected stack exhaustion, gc and address-space perturbation; oracle = the same call alone in a cold process under two hash seeds; ddmin replay",
-   level_text="Seeded exploration (1.2k quick / 12k thorough process lifetimes of 3-60 calls each, 4 / 32 hash seeds) from a cold interpreter (no dialect or rule module loaded), so dialect import order, metaclass side effects and first-use cache fills are part of the history. Every step is compared byte-for-byte with a reference table computed per call signature ALONE in its own cold child, under PYTHONHASHSEED 0 and 4242 (which must agree). Faults: ParseError/TokenError/UnsupportedError/OptimizeError in earlier steps on components reused afterwards, RecursionError injected at a PRNG-chosen margin, gc.collect/disable, garbage pre-allocation shifting object addresses. Evidence, not proof.",
+   level_text="Seeded exploration (1.2k quick / 12k thorough process lifetimes of 3-60 calls each, 4 / 32 hash seeds) from a cold interpreter (no dialect or rule module loaded), so dialect import order, metaclass side effects and first-use cache fills are part of the history; 40% of the histories replay a focus group (one reused Parser/Generator/Tokenizer configuration fed with statements that touch the same per-instance state). Every step is compared byte-for-byte with a reference table computed per call signature ALONE in its own cold child, under PYTHONHASHSEED 0 and 4242 (which must agree). Faults: ParseError/TokenError/UnsupportedError/OptimizeError in earlier steps on components reused afterwards (incl. statements cut short at a token boundary), generation aborted at a PRNG-chosen node of a reused generator, RecursionError injected at a PRNG-chosen margin, gc.collect/disable, garbage pre-allocation shifting object addresses. Words that a history adds to class-level tables of the base classes are turned into output probes (leak-probe oracle). Evidence, not proof.",
    design_ref="DESIGN.md 3.2", note="Exception messages are not compared (classes are); the AST-diff op is excluded as the property excludes it; references and histories share the same code, so a defect that changes every execution identically is invisible (that is C01..C14's subject, not C15's)."),
  "C19": dict(engine="threadsim", technique="deterministic thread-schedule simulation: real threads under baton passing with sys.settrace line/call events of sqlglot and importlib frames as pre-emption points, cooperative lock seam, cold-start fork template; seeded strategies (random-walk gaps, PCT depth 1-3, cold-code bias, serial), gc and starvation faults; oracles = run-alone reference, no-raise, exactly-once loading, post-run health, deadlock/step-budget liveness; recorded schedule as replay file, ddmin over switch points",
-   level_text="Seeded search over interleavings (1.1k quick / 14k thorough runs of 2-8 threads x 1-4 calls, ~0.6 G trace events per quick batch) of the very first use of dialects, optimizer sub-modules, generator dispatch caches from a cold interpreter. Exactly one thread runs at a time; the simulator decides every hand-over from one PRNG value and records it, so a run is replayable from its schedule and minimisable (typical minimal schedule: 1-3 pre-emptions). Threads that would block on a lock are parked in the simulator, so lock-order deadlocks are detected as 'all live threads parked' with the stacks. Evidence, not proof; found 2 genuine defects on the pinned tree (race on the dialect registry, ABBA deadlock between the dialects import lock and importlib's module lock).",
+   level_text="Seeded search over interleavings (1.4k quick / 14k thorough runs of 2-8 threads x 1-4 calls, ~0.45 G trace events per quick batch). Half of the runs start from a cold interpreter (very first use of dialects, optimizer sub-modules, generator dispatch caches), half are warm with gaps of 3-1000 trace events, many of them same-call contention (all threads run one call), which exposes per-call scratch state kept at class or module level. Exactly one thread runs at a time; the simulator decides every hand-over from one PRNG value and records it, so a run is replayable from its schedule and minimisable (typical minimal schedule: 1-3 pre-emptions). Threads that would block on a lock are parked in the simulator, so lock-order deadlocks are detected as 'all live threads parked' with the stacks. Evidence, not proof; found 4 genuine defects on the pinned tree (race on the dialect registry, ABBA deadlock between the dialects import lock and importlib's module lock, Athena class usable before its module finished importing, CONNECT BY editing a class-level parser table).",
    design_ref="DESIGN.md 3.1", note="Pre-emption granularity is source lines / function entry with C-level operations atomic (GIL semantics); locks are stubbed by cooperative wrappers; CPython's global import lock is never pre-empted; pure-Python package only."),
 }
 
